@@ -152,6 +152,23 @@ def run(ctx) -> None:
                     inst = f"{fn.short}: {norm(c)} guarded"
                     facts = facts_at(gg, n)
                     ok = fn.name == "_finalize_command" or any("is_finalized()" in a and not pol for a, pol in facts)
+                    if not ok and isinstance(c.func.value, ast.Name):
+                        # a fresh instance: the receiver is a local assigned from a create_* call in this function, that assignment
+                        # dominates the call, and no other call on the local that could finalize it (finalize/tick/cancel/
+                        # _finalize_command/_cancel_command) lies on a path between them
+                        rv = c.func.value.id
+                        crs = [m_ for m_ in gg.nodes if m_.kind == "stmt" and isinstance(m_.ast, ast.Assign) and isinstance(m_.ast.targets[0], ast.Name)
+                               and m_.ast.targets[0].id == rv and isinstance(m_.ast.value, ast.Call) and (call_attr(m_.ast.value) or "").startswith("create_")]
+                        others = [m_ for m_ in gg.nodes if m_.id != n.id and m_.ast is not None and any(
+                            (call_attr(x) in ("finalize", "tick", "cancel") and isinstance(x.func.value, ast.Name) and x.func.value.id == rv)
+                            or (call_attr(x) in ("_finalize_command", "_cancel_command") and any(isinstance(a_, ast.Name) and a_.id == rv for a_ in x.args))
+                            for x in m_.calls())]
+                        def reach(x_, y_):
+                            return gg.search([x_.id], lambda z: z.id == y_.id, follow_exc=True) is not None
+                        between = len(crs) == 1 and any(reach(crs[0], o) and reach(o, n) for o in others)
+                        if len(crs) == 1 and gg.dominates(crs[0], n) and not between:
+                            ok = True
+                            inst += " (fresh instance)"
                     if ok:
                         ctx.ok("R11b", inst)
                     else:
